@@ -23,9 +23,10 @@
 //   * getCategoryIndex is 0-based, i.e. getCategory(getCategoryIndex(x)) is the value of the class containing x
 //     (the header documents both as "index of the category" / "Class index");
 //   * lookups off the domain raise bpp::Exception (the header names an exception class that does not exist any more);
-//   * class values may differ from the class mean by (K+1)*precision(): the class documents that values closer than its
-//     precision are separated and that values at an open end of the domain are moved inward by the precision; a class
-//     whose mean cannot be told from a bound takes the documented midpoint;
+//   * class values may differ from the class mean by 2(K+1)*precision(): the class documents that values closer than its
+//     precision are separated and that values at an open end of the domain are moved inward by the precision (its comparator
+//     may still take two values exactly one precision apart for identical: the free slots are then two precisions apart);
+//     a class whose mean cannot be told from a bound takes the documented midpoint;
 //   * with median-valued classes the values are "proportional to the median value of the class, the proportionality factor
 //     being such that the sum of the values equals the expectation" (DiscreteDistribution.h): the law checks exactly that
 //     (v_k = c*median_k, sum p_k v_k = parent mean) and containment of v_k/c, not of v_k, in the class interval;
@@ -338,7 +339,10 @@ void guardKnown(vf::Ctx& c, const Model& next, double lo, double hi) {
 void checkCont(vf::Ctx& c, const DDI& d, const Model& m, const CheckOpt& opt, const string& where) {
   const CP& q = m.q; const size_t K = m.K; const Tol tol = tolOf(q.f);
   if (q.f == F_GAMMA && q.off < 0) c.excludeIfKnown("C09-gamma-negative-offset-expectation");
-  const double prec = precisionOf(d), slack = (K + 1) * prec;
+  // separation of coinciding values: the class's comparator takes a < b - precision for "different", so a value exactly one
+  // precision above another one may still count as identical (rounding of b - precision) and the next free slot is two
+  // precisions away: K values piled on one point spread over up to 2K precisions (plus one for an open end of the domain)
+  const double prec = precisionOf(d), slack = 2 * (K + 1) * prec;
   const double lo = d.getLowerBound(), hi = d.getUpperBound();
   CHECK(lo < hi, where << ": domain [" << vf::dec(lo) << ";" << vf::dec(hi) << "] is empty");
   LD Flo = refP(q, lo), Fhi = refP(q, hi), mass = Fhi - Flo;
@@ -455,10 +459,8 @@ void checkCont(vf::Ctx& c, const DDI& d, const Model& m, const CheckOpt& opt, co
         for (size_t k = 0; k < K; ++k) {
           double want = static_cast<double>(cfac * med[k]), errV = std::abs(want) * rel + slack;
           // documented adjustment: a value beyond an end of the domain is moved to that end +- precision (then separated)
-          // (values piled on an end are separated by the precision as the class's comparator sees it: a difference of exactly one
-          //  precision still counts as "identical" after rounding, the next free slot is then two precisions away)
-          if (want < lo + prec + errV && std::abs(o.v[k] - lo) <= 2 * slack * (1 + 4 * EPS) + 4 * EPS * std::abs(lo)) { adjusted = true; continue; }
-          if (want > hi - prec - errV && std::abs(o.v[k] - hi) <= 2 * slack * (1 + 4 * EPS) + 4 * EPS * std::abs(hi)) { adjusted = true; continue; }
+          if (want < lo + prec + errV && std::abs(o.v[k] - lo) <= slack * (1 + 4 * EPS) + 4 * EPS * std::abs(lo)) { adjusted = true; continue; }
+          if (want > hi - prec - errV && std::abs(o.v[k] - hi) <= slack * (1 + 4 * EPS) + 4 * EPS * std::abs(hi)) { adjusted = true; continue; }
           double dv = std::abs(o.v[k] - want);
           c.observe("medianvalue/tol[" + string(famName(q.f)) + "]", dv / errV);
           CHECK(dv <= errV, where << ": median-valued class " << k << " has value " << vf::dec(o.v[k]) << ", expected factor*median = " << vf::dec(want) << " (factor " << vf::dec(static_cast<double>(cfac)) << " makes the discrete mean equal the parent's mean; tolerance " << errV << "); values " << showVec(o.v));
@@ -505,7 +507,13 @@ void checkParent(vf::Ctx& c, const DDI& d, const CP& q, const string& where, int
     c.observe("Expectation_vs_reference/tol[" + string(famName(q.f)) + "]", std::abs(static_cast<double>(E - Er)) / tolE);
     CHECK(std::abs(static_cast<double>(E - Er)) <= tolE, where << ": Expectation(" << vf::dec(x) << ") = " << vf::dec(E) << " but the partial expectation int t dF(t) of " << show(q) << " up to there is " << vf::dec(static_cast<double>(Er)) << " (tolerance " << tolE << ")");
     if (have) {
-      CHECK(x >= prevX, where << ": qProb decreases: qProb(" << vf::dec(u) << ") = " << vf::dec(x) << " < " << vf::dec(prevX));
+      // monotone up to the accuracy of the quantile: two quantiles each within tol.q (in probability) of their target may
+      // come out in the wrong order when the targets are closer than that, never further apart (external cdf as the judge)
+      if (!(x >= prevX)) {
+        double back = static_cast<double>(refP(q, prevX) - refP(q, x));
+        c.label("quantiles_of_close_probabilities_swapped");
+        CHECK(back <= 2 * tol.q, where << ": qProb decreases: qProb(" << vf::dec(u) << ") = " << vf::dec(x) << " < " << vf::dec(prevX) << " = qProb of a smaller probability; the step back is " << back << " in probability, more than twice the accuracy " << tol.q << " of the quantile");
+      }
       CHECK(P >= prevP - 2 * tol.p, where << ": pProb decreases between " << vf::dec(prevX) << " and " << vf::dec(x));
       // derivative relation E' = x P' in its integrated form: (E(b)-E(a)) / (P(b)-P(a)) lies in [a,b]
       double dP = P - prevP, dE = E - prevE;
